@@ -56,6 +56,29 @@ def _paren_edits(r, text, maxn=2):
     return out
 
 
+def continued(r, text):
+    """The same statement split over 2-3 free-form lines at blanks outside character context."""
+    cuts = []
+    q = None
+    for i, ch in enumerate(text):
+        if q:
+            if ch == q:
+                q = None
+        elif ch in "'\"":
+            q = ch
+        elif ch == " " and 0 < i < len(text) - 1 and text[:i].strip() and not text[:i].strip().isdigit():
+            cuts.append(i)
+    if not cuts:
+        return text
+    picks = sorted({r.pick(cuts) for _ in range(r.n(1, 2))})
+    out, prev = [], 0
+    for c in picks:
+        out.append(text[prev:c] + " &")
+        prev = c
+    out.append(("   &" if r.chance(50) else "   ") + text[prev:])
+    return "\n".join(out)
+
+
 def build(rnd, tier, flags):
     units, flat, g = progs.make_program(rnd, flags, max_units=2, max_stmts=4)
     r = gen.R(rnd)
@@ -131,7 +154,10 @@ def build(rnd, tier, flags):
         for new in _paren_edits(r, st.src, 2):
             pre = lines[i][:len(lines[i]) - len(st.src)]
             tag = "+intent" if (st.kind in ("type_decl", "attr") and ("intent(" in st.src)) else ""
-            edits.append(["paren:" + st.kind + tag, "rep", i, pre + new, d, bool(st.label or st.cname)])
+            text = pre + new
+            if r.chance(40):
+                text = continued(r, text)      # the edited statement written over continuation lines
+            edits.append(["paren:" + st.kind + tag, "rep", i, text, d, bool(st.label or st.cname)])
     case = {"lines": lines, "edits": edits, "std": std, "meta": meta,
             "reader_opts": r.pick([{}, {}, {"ignore_comments": False}, {"ignore_comments": False, "process_directives": True},
                                    {"process_directives": True}])}
